@@ -245,6 +245,7 @@ func c18Doc(v []int, ctx string) string {
 }
 
 func c18Enumerate(tier string, emit func(*eng.Case)) {
+	emit = withDecor(decorEvery(tier), emit)
 	nf := len(c18Features)
 	mk := func(v []int, ctx string) {
 		var parts []string
@@ -565,9 +566,9 @@ func init() {
 		Check:     c18Check,
 		Bounds: func(tier string) map[string]any {
 			if tier == "thorough" {
-				return map[string]any{"body": "all vectors", "other_contexts_max_deviations": 3}
+				return map[string]any{"decorated_variants": decorBound(tier), "body": "all vectors", "other_contexts_max_deviations": 3}
 			}
-			return map[string]any{"body_max_deviations": 3, "other_contexts_max_deviations": 2}
+			return map[string]any{"decorated_variants": decorBound(tier), "body_max_deviations": 3, "other_contexts_max_deviations": 2}
 		},
 		Assumptions: []string{"no colspan/rowspan", "documents are below the 500-word threshold, so role-based pruning of the table itself does not apply"},
 	})
